@@ -1,5 +1,6 @@
 import CobraModel.Model.AuxProb
 import CobraModel.Lemmas.SplitRange
+import CobraModel.Lemmas.LP
 import Mathlib.Tactic.NormNum
 /-!
 # Semantics of the auxiliary problems and what their optima mean for the net fluxes
@@ -1252,5 +1253,138 @@ theorem demo_pfba_isOpt : (demoNet.pfba "fixed_objective_obj" 1).IsOpt (splitOf 
   rw [hd]
   simp only [Bool.false_eq_true, if_false]
   rw [h2]; linarith
+
+/-! ### add_loopless -/
+
+/-- driving forces and net fluxes of the internal reactions, in the order of `internal` -/
+def Net.forces (n : Net) (x : V → Rat) : List Rat := n.internal.map (fun i => x (.deltaG i))
+def Net.internalFluxes (n : Net) (x : V → Rat) : List Rat := n.internal.map (netOf x)
+
+theorem nullRow_lin (n : Net) (cutoff : Rat) (p : List Rat × Nat) (x : V → Rat) :
+    lin (n.nullRow cutoff p).co x = LPM.dot (filterRow cutoff p.1) (n.forces x) := by
+  unfold Net.nullRow Net.forces
+  generalize n.internal = l
+  generalize filterRow cutoff p.1 = r
+  induction l generalizing r with
+  | nil => cases r <;> simp [lin, LPM.dot]
+  | cons a l ih =>
+    cases r with
+    | nil => simp [lin, LPM.dot]
+    | cons c r =>
+      simp only [List.zip_cons_cons, List.map_cons, lin_cons, LPM.dot]
+      rw [ih r]
+
+/-- the conditions `add_loopless` puts on one internal reaction: binary indicator `a`, `−M (1 − a) ≤ v ≤ M a`,
+`1 ≤ G_i + (G + 1) a ≤ G` -/
+def LooplessRows (n : Net) (M G : Rat) (x : V → Rat) (i : Nat) : Prop :=
+  (x (.indicator i) = 0 ∨ x (.indicator i) = 1) ∧
+  -M ≤ netOf x i - M * x (.indicator i) ∧ netOf x i - M * x (.indicator i) ≤ 0 ∧
+  1 ≤ x (.deltaG i) + (G + 1) * x (.indicator i) ∧ x (.deltaG i) + (G + 1) * x (.indicator i) ≤ G
+
+theorem loopless_feasible_iff (n : Net) (ns : List (List Rat)) (cutoff : Rat) (x : V → Rat) :
+    (n.loopless ns cutoff).Feasible x ↔
+      FbaPart n x ∧ (∀ i ∈ n.internal, LooplessRows n n.maxBound (maxR n.maxBound 1000) x i) ∧
+      ∀ p ∈ ns.zipIdx, LPM.dot (filterRow cutoff p.1) (n.forces x) = 0 := by
+  unfold Net.loopless Prob.Feasible FbaPart
+  simp only [Net.fba, List.forall_mem_append, List.forall_mem_map, List.forall_mem_flatMap, fbaVars_ok]
+  have hv : ∀ i, (∀ w ∈ Net.looplessVars i, w.ok (x w.v)) ↔ (x (.indicator i) = 0 ∨ x (.indicator i) = 1) := by
+    intro i
+    simp only [Net.looplessVars, List.forall_mem_cons, List.not_mem_nil, false_imp_iff, imp_true_iff, and_true, ok_cont, inBox_ninf_pinf]
+    simp only [Var.ok, Core.inBox_fin, reduceCtorEq, false_imp_iff, and_true, true_imp_iff]
+    constructor
+    · exact fun h => h.2
+    · intro h; refine ⟨?_, h⟩
+      rcases h with h | h <;> rw [h] <;> norm_num
+  have hr : ∀ M G i, (∀ r ∈ n.looplessRows M G i, inBox (r.lb, r.ub) (lin r.co x)) ↔
+      (-M ≤ netOf x i - M * x (.indicator i) ∧ netOf x i - M * x (.indicator i) ≤ 0 ∧
+       1 ≤ x (.deltaG i) + (G + 1) * x (.indicator i) ∧ x (.deltaG i) + (G + 1) * x (.indicator i) ≤ G) := by
+    intro M G i
+    simp only [Net.looplessRows, List.forall_mem_cons, List.not_mem_nil, false_imp_iff, imp_true_iff, and_true,
+      Core.inBox_fin, lin_append, lin_flux, lin_cons, lin_nil]
+    constructor
+    · rintro ⟨⟨a, b⟩, c, d⟩; refine ⟨by linarith, by linarith, by linarith, by linarith⟩
+    · rintro ⟨a, b, c, d⟩; exact ⟨⟨by linarith, by linarith⟩, by linarith, by linarith⟩
+  have hn : ∀ p : List Rat × Nat, inBox ((n.nullRow cutoff p).lb, (n.nullRow cutoff p).ub) (lin (n.nullRow cutoff p).co x) ↔
+      LPM.dot (filterRow cutoff p.1) (n.forces x) = 0 := by
+    intro p
+    rw [nullRow_lin]
+    show inBox (.fin 0, .fin 0) _ ↔ _
+    exact inBox_zero _
+  simp only [hv, hr, hn, LooplessRows]
+  constructor
+  · rintro ⟨⟨h1, h2⟩, ⟨h3, h4⟩, h5⟩
+    exact ⟨⟨h1, h3⟩, fun i hi => ⟨h2 i hi, h4 i hi⟩, h5⟩
+  · rintro ⟨⟨h1, h3⟩, h4, h5⟩
+    exact ⟨⟨h1, fun i hi => (h4 i hi).1⟩, ⟨h3, fun i hi => (h4 i hi).2⟩, h5⟩
+
+theorem getD_map_of_lt {α : Type} (l : List α) (f : α → Rat) (j : Nat) (h : j < l.length) : (l.map f).getD j 0 = f l[j] := by
+  simp [List.getD_eq_getElem?_getD, h]
+
+theorem getD_of_ge (l : List Rat) (j : Nat) (h : l.length ≤ j) : l.getD j 0 = 0 := by
+  simp [List.getD_eq_getElem?_getD, h]
+
+/-- **the driving force of an internal reaction opposes its flux** at every feasible point of the `add_loopless` problem -/
+theorem loopless_forces (n : Net) (ns : List (List Rat)) (cutoff : Rat) (x : V → Rat) (h : (n.loopless ns cutoff).Feasible x) (j : Nat) :
+    (0 < (n.internalFluxes x).getD j 0 → (n.forces x).getD j 0 < 0) ∧ ((n.internalFluxes x).getD j 0 < 0 → 0 < (n.forces x).getD j 0) := by
+  obtain ⟨_, hi, _⟩ := (loopless_feasible_iff n ns cutoff x).1 h
+  by_cases hj : j < n.internal.length
+  · unfold Net.internalFluxes Net.forces
+    rw [getD_map_of_lt _ _ _ hj, getD_map_of_lt _ _ _ hj]
+    obtain ⟨ha, h1, h2, h3, h4⟩ := hi _ (List.getElem_mem hj)
+    have hG : n.maxBound ≤ maxR n.maxBound 1000 := by rw [maxR_eq]; exact le_max_left _ _
+    rcases ha with ha | ha <;> rw [ha] at h1 h2 h3 h4
+    · constructor <;> intro hv <;> linarith
+    · constructor <;> intro hv <;> linarith
+  · have hj' : n.internal.length ≤ j := Nat.le_of_not_lt hj
+    unfold Net.internalFluxes Net.forces
+    rw [getD_of_ge _ _ (by simpa using hj'), getD_of_ge _ _ (by simpa using hj')]
+    constructor <;> intro h0 <;> exact absurd h0 (lt_irrefl _)
+
+theorem dot_comm (a b : List Rat) : LPM.dot a b = LPM.dot b a := by
+  induction a generalizing b with
+  | nil => cases b <;> simp [LPM.dot]
+  | cons x a ih =>
+    cases b with
+    | nil => simp [LPM.dot]
+    | cons y b => simp only [LPM.dot]; rw [ih b]; ring
+
+theorem wsum_zero (g : List Rat) (lam : List Rat) (rows : List (List Rat × LPM.Bnd)) (h : ∀ r ∈ rows, LPM.dot r.1 g = 0) :
+    LPM.wsum g lam rows = 0 := by
+  induction lam generalizing rows with
+  | nil => simp [LPM.wsum]
+  | cons y ys ih =>
+    cases rows with
+    | nil => simp [LPM.wsum]
+    | cons r rs =>
+      obtain ⟨a, b⟩ := r
+      simp only [LPM.wsum]
+      rw [h (a, b) (by simp), ih rs (fun r hr => h r (by simp [hr]))]
+      ring
+
+/-- the null-space rows as dense rows (vectors with the entries at or below the cut-off dropped) -/
+def nullRows (cutoff : Rat) (ns : List (List Rat)) : List (List Rat × LPM.Bnd) := ns.map (fun r => (filterRow cutoff r, ⟨some 0, some 0⟩))
+
+/-- **the driving forces are orthogonal to every combination of the null-space rows** -/
+theorem loopless_orthogonal (n : Net) (ns : List (List Rat)) (cutoff : Rat) (x : V → Rat) (h : (n.loopless ns cutoff).Feasible x)
+    (hlen : ∀ r ∈ ns, r.length = n.internal.length) (lam : List Rat) :
+    LPM.dot (n.forces x) (LPM.yA n.internal.length lam (nullRows cutoff ns)) = 0 := by
+  obtain ⟨_, _, ho⟩ := (loopless_feasible_iff n ns cutoff x).1 h
+  rw [dot_comm, LPM.dot_yA]
+  · apply wsum_zero
+    intro r hr
+    obtain ⟨row, hrow, rfl⟩ := List.mem_map.1 hr
+    obtain ⟨k, hk⟩ : ∃ k, (row, k) ∈ ns.zipIdx := by
+      obtain ⟨k, hk, rfl⟩ := List.getElem_of_mem hrow
+      exact ⟨k, by simp [List.mem_zipIdx_iff_getElem?, hk]⟩
+    exact ho _ hk
+  · unfold nullRows
+    have : ∀ l : List (List Rat), (∀ r ∈ l, r.length = n.internal.length) → LPM.rowsLen n.internal.length (l.map (fun r => (filterRow cutoff r, (⟨some 0, some 0⟩ : LPM.Bnd)))) := by
+      intro l hl
+      induction l with
+      | nil => simp [LPM.rowsLen]
+      | cons a l ih =>
+        simp only [List.map_cons, LPM.rowsLen]
+        exact ⟨by simp [filterRow, hl a (by simp)], ih (fun r hr => hl r (by simp [hr]))⟩
+    exact this ns hlen
 
 end AuxM
